@@ -264,6 +264,7 @@ func ApplyModel(m *Model, o Op) (reject bool) {
 			b[i] = byte(o.U64 >> (8 * uint(i)))
 		}
 		m.SetStable(o.Key, b[:])
+		m.U64[o.Key] = true
 	}
 	return false
 }
@@ -403,6 +404,9 @@ func ModelFromObs(o *Obs, prev *Model) *Model {
 			m.Truncated[k] = v
 		}
 		m.Deleted = prev.Deleted
+		for k, v := range prev.U64 {
+			m.U64[k] = v
+		}
 	}
 	m.First, m.Last = o.First, o.Last
 	if o.Last > 0 {
@@ -465,7 +469,7 @@ func CompareStable(o *Obs, ms []*Model) []Violation {
 			if o.Stable[k] != want {
 				ok = false
 			}
-			if o.U64 != nil {
+			if o.U64 != nil && (m.U64[k] || len(m.Stable[k]) == 0) {
 				v := m.Stable[k]
 				wu := "ERR"
 				switch len(v) {
